@@ -6,6 +6,7 @@ from ..r_rings import rule_heavy_atoms
 
 from ..r_domains import rule_domains
 from ..r_keys import rule_fresh_keys
+from ..r_hygiene import rule_hygiene as _rule_hygiene
 
 LEVEL = 'other'
 NORMALISERS = {'Standardize.canonicalize', 'Standardize.standardize', 'Standardize.standardize_charges', 'Resonance.fix_resonance',
@@ -23,3 +24,4 @@ def run(ck, repo):
     rule_domains(ck, repo, 'C14.D2-index-domains', only=['__standardize', '__fix_rings'])
     rule_heavy_atoms(ck, repo, 'C14.D3-heavy-atoms', P)
     rule_fresh_keys(ck, repo, 'C14.D3-fresh-atom-numbers')
+    _rule_hygiene(ck, repo, 'C14.H-dataflow-hygiene', 'C14')
